@@ -62,6 +62,7 @@ def main(argv=None) -> int:
     try:
         core.silence_library()
         core.assert_library_location()
+        core.preimport_library()
         module = load_module(prop)
         ctx = Ctx(prop, args.tier, seed, module)
         if args.list:
